@@ -396,17 +396,49 @@ def check_access(ctx, F):
         ctx.instance("C03.access", site, {"function": site, "loc": F.floc(fid)})
         if not ok:
             ctx.violation("C03.access", site, "%s (%s)" % (site, F.floc(fid)), "access<T>() is not `return static_cast<T&>(_apex)` by reference", {})
-    # no state record is passed or returned by value by any function of the apex hierarchy
+    # no state record is passed, returned, held in a local or copy-constructed by value by any library function: a callback invoked on a copy
+    # runs on an object other than the one access<T>() denotes (and the copy is never entered / exited)
     state_tmpls = ("S_", "C_", "CS_", "O_", "OS_")
+    from .. import facts as factsmod
+    lib = factsmod.REPO.rstrip("/") + "/"
+
+    def state_type(tid):
+        t = F.type(tid) if tid is not None else None
+        if not t:
+            return None
+        if t.get("tmpl") in state_tmpls or t.get("name") in state_tmpls:
+            return t.get("tmpl") or t.get("name")
+        loc = t.get("loc") or ""
+        if loc and not loc.startswith(lib) and not loc.startswith("/usr/") and any((F.type(bb.get("tid")) or {}).get("name") in ("A_", "B_") or
+                                                                                 "hfsm2::detail::A_<" in str(bb.get("t")) for bb in t.get("bases", [])):
+            return "user state " + (t.get("name") or "?")
+        return None
+
+    scanned = 0
     for fid, b in F.bodies.items():
-        if not b["inst"] or b.get("cls") not in state_tmpls + ("R_", "RV_", "RP_", "RC_"):
+        if not b["inst"] or not (F.fn(fid).get("loc") or "").startswith(lib):
             continue
+        scanned += 1
+        where = "%s::%s" % (b.get("cls"), b["name"])
         for p in b.get("params", []):
-            t = F.type(p.get("tid"))
-            if t and t.get("tmpl") in state_tmpls and not p.get("ref") and not p.get("ptr"):
-                ctx.violation("C03.access", "byvalue/%s::%s" % (b["cls"], b["name"]), "%s (%s)" % (site_str(F, fid), F.floc(fid)),
-                              "state sub-object of type %s passed by value" % t.get("tmpl"), {})
-        rt = F.type(b.get("rettid"))
-        if rt and rt.get("tmpl") in state_tmpls and not b.get("retref"):
-            ctx.violation("C03.access", "byvalue-ret/%s::%s" % (b["cls"], b["name"]), "%s (%s)" % (site_str(F, fid), F.floc(fid)),
-                          "state sub-object returned by value", {})
+            st = state_type(p.get("tid"))
+            if st and not p.get("ref") and not p.get("ptr"):
+                ctx.violation("C03.access", "byvalue/%s" % where, "%s (%s)" % (site_str(F, fid), F.floc(fid)),
+                              "state sub-object of type %s passed by value" % st, {})
+        st = state_type(b.get("rettid"))
+        if st and not b.get("retref") and b.get("kind") != "ctor":
+            ctx.violation("C03.access", "byvalue-ret/%s" % where, "%s (%s)" % (site_str(F, fid), F.floc(fid)), "state sub-object returned by value", {})
+        if b.get("cls") in state_tmpls and b.get("kind") == "ctor":
+            continue
+        for x in walk(b.get("body") or {}):
+            if x.get("k") == "decl":
+                for v in x.get("vars", []):
+                    st = state_type(v.get("tid"))
+                    if st and not v.get("ref") and not v.get("ptr"):
+                        ctx.violation("C03.access", "byvalue-local/%s/%s" % (where, v.get("n")), "%s (%s)" % (site_str(F, fid), F.floc(fid)),
+                                      "local `%s` is a *copy* of a state sub-object (%s): callbacks invoked through it run on a temporary, not on the "
+                                      "object access<T>() returns" % (v.get("n"), st), {})
+            elif x.get("k") == "ctor" and x.get("copy") and state_type(x.get("tid")):
+                ctx.violation("C03.access", "copy/%s" % where, "%s (%s)" % (site_str(F, fid), F.floc(fid)),
+                              "a state sub-object (%s) is copy-constructed" % state_type(x.get("tid")), {})
+    ctx.instance("C03.access", "by-value scan", {"library_functions_scanned": scanned})
